@@ -264,7 +264,28 @@ func (w plainWriter) Write(p []byte) (int, error) { return w.s.Write(p) }
 // c13CheckMulti builds the multi syncer flat, or nested according to groups
 // (sizes of consecutive sub-groups; a sub-group of >= 2 sinks becomes its own
 // NewMultiWriteSyncer): nesting must not change anything observable.
+// c13MultiWrap: the multi syncer under test is additionally wrapped (set by the property around one call).
+var c13MultiWrap string
+
+// c13Routes are equivalent ways of handing one payload to an io.Writer: each makes exactly one Write call with
+// the payload's bytes on a writer that has no other methods, and returns that call's results.
+var c13Routes = []string{"Write", "io.WriteString", "fmt.Fprintf"}
+
+func c13WriteVia(route string, w io.Writer, p []byte) (int, error) {
+	switch route {
+	case "io.WriteString":
+		return io.WriteString(w, string(p))
+	case "fmt.Fprintf":
+		return fmt.Fprintf(w, "%s", p)
+	}
+	return w.Write(p)
+}
+
 func c13CheckMulti(t interface{ Fatalf(string, ...any) }, sinks []*c13Sink, payloads [][]byte, desc string, groups ...int) {
+	c13CheckMultiVia(t, nil, sinks, payloads, desc, groups...)
+}
+
+func c13CheckMultiVia(t interface{ Fatalf(string, ...any) }, routes []string, sinks []*c13Sink, payloads [][]byte, desc string, groups ...int) {
 	ws := make([]zapcore.WriteSyncer, len(sinks))
 	for i, s := range sinks {
 		ws[i] = s
@@ -291,6 +312,10 @@ func c13CheckMulti(t interface{ Fatalf(string, ...any) }, sinks []*c13Sink, payl
 		desc += fmt.Sprintf(" nested%v", groups)
 	}
 	m := zapcore.NewMultiWriteSyncer(ws...)
+	if c13MultiWrap == "lock" {
+		m = zapcore.Lock(m)
+		desc += " under Lock"
+	}
 	for c, p := range payloads {
 		wantN := 0
 		var wantErrs []string
@@ -303,7 +328,12 @@ func c13CheckMulti(t interface{ Fatalf(string, ...any) }, sinks []*c13Sink, payl
 				wantErrs = append(wantErrs, err.Error())
 			}
 		}
-		n, err := m.Write(p)
+		route := "Write"
+		if c < len(routes) {
+			route = routes[c]
+			desc += " via " + route
+		}
+		n, err := c13WriteVia(route, m, p)
 		if n != wantN {
 			t.Fatalf("%s: call %d: multi Write returned n=%d, the smallest count any sink reported is %d", desc, c, n, wantN)
 		}
@@ -379,7 +409,14 @@ func propC13Multi(t *rapid.T) {
 		groups = rapid.SliceOfN(rapid.IntRange(1, 3), 1, 3).Draw(t, "groupSizes")
 		sig += fmt.Sprint("g", groups)
 	}
-	c13CheckMulti(t, sinks, payloads, sig, groups...)
+	routes := make([]string, calls)
+	for c := range routes {
+		routes[c] = rapid.SampledFrom(c13Routes).Draw(t, "route")
+	}
+	wrap := rapid.SampledFrom([]string{"", "", "lock"}).Draw(t, "wrap")
+	c13MultiWrap = wrap
+	c13CheckMultiVia(t, routes, sinks, payloads, sig, groups...)
+	c13MultiWrap = ""
 	labels := []string{"multi syncer"}
 	if len(groups) > 0 {
 		labels = append(labels, "nested multi syncers")
@@ -406,8 +443,10 @@ func TestC13MultiExhaustive(t *testing.T) {
 		c13CheckMulti(t, []*c13Sink{{name: "a", outs: []c13Outcome{a}}}, p, fmt.Sprint(a))
 		cnt++
 		for _, b := range outs {
-			c13CheckMulti(t, []*c13Sink{{name: "a", outs: []c13Outcome{a}}, {name: "b", outs: []c13Outcome{b}}}, p, fmt.Sprint(a, b))
-			cnt++
+			for _, r := range c13Routes { // the equivalent routes to Write agree on every vector
+				c13CheckMultiVia(t, []string{r}, []*c13Sink{{name: "a", outs: []c13Outcome{a}}, {name: "b", outs: []c13Outcome{b}}}, p, fmt.Sprint(a, b))
+				cnt++
+			}
 			statCase("C13", true, fmt.Sprint("exh", a, b), "exhaustive 2-sink outcome vectors")
 			for _, c := range outs[:4] {
 				c13CheckMulti(t, []*c13Sink{{name: "a", outs: []c13Outcome{a}}, {name: "b", outs: []c13Outcome{b}}, {name: "c", outs: []c13Outcome{c}}}, p, fmt.Sprint(a, b, c))
@@ -431,7 +470,8 @@ func propC13Wrappers(t *rapid.T) {
 	s2 := &c13Sink{name: "s2", outs: []c13Outcome{o}}
 	aw := zapcore.AddSync(plainWriter{s2})
 	wn, werr := s2.result(0, len(p))
-	n, err := aw.Write(p)
+	route := rapid.SampledFrom(c13Routes).Draw(t, "route")
+	n, err := c13WriteVia(route, aw, p)
 	if n != wn || fmt.Sprint(err) != fmt.Sprint(werr) || len(s2.calls) != 1 || !bytes.Equal(s2.calls[0], p) {
 		t.Fatalf("AddSync wrapper relayed (%d, %v), wrapped writer returned (%d, %v)", n, err, wn, werr)
 	}
@@ -446,8 +486,8 @@ func propC13Wrappers(t *rapid.T) {
 		t.Fatalf("Lock wrapped an already locked WriteSyncer again")
 	}
 	wn, werr = s3.result(0, len(p))
-	n, err = lk.Write(p)
-	if n != wn || fmt.Sprint(err) != fmt.Sprint(werr) || !bytes.Equal(s3.calls[0], p) {
+	n, err = c13WriteVia(route, lk, p)
+	if n != wn || fmt.Sprint(err) != fmt.Sprint(werr) || len(s3.calls) != 1 || !bytes.Equal(s3.calls[0], p) {
 		t.Fatalf("Lock relayed (%d, %v), wrapped syncer returned (%d, %v)", n, err, wn, werr)
 	}
 	serr := lk.Sync()
@@ -463,7 +503,7 @@ func propC13Wrappers(t *rapid.T) {
 		done := make(chan string, 1)
 		go func() {
 			for round := 0; round < 3; round++ {
-				if n, err := wrapped.Write(p); n != len(p) || err != es.werr {
+				if n, err := c13WriteVia(c13Routes[round%len(c13Routes)], wrapped, p); n != len(p) || err != es.werr {
 					done <- fmt.Sprintf("round %d: Write relayed (%d, %v), the wrapped syncer returned (%d, %v)", round, n, err, len(p), es.werr)
 					return
 				}
